@@ -274,8 +274,18 @@ func execC11(c C11Case, bound time.Duration) (facts map[string]bool, err error) 
 				target = &map[string]int{} // an error frame's parameters must not be decoded into the caller's output value
 			}
 		}
+		// every third receive passes no output value at all, as generated stubs do for methods without output
+		// (receive(ctx, nil)): the frame's parameters are then simply not delivered
+		nilOut := i%3 == 1 && c.API != "call"
+		if nilOut {
+			target = nil
+			facts["nil-output-value"] = true
+		}
 		fl, rerr := receive(ctx, target)
 		pre := fmt.Sprintf("receive %d: ", i)
+		if nilOut {
+			pre = fmt.Sprintf("receive %d (output value nil): ", i)
+		}
 		if isTimeoutErr(rerr) {
 			return facts, fmt.Errorf("%sdid not return within %v although the server had sent %d bytes and closed", pre, bound, len(sent))
 		}
@@ -343,6 +353,9 @@ func execC11(c C11Case, bound time.Duration) (facts map[string]bool, err error) 
 		}
 		if fl&^uint64(varlink.Continues) != 0 {
 			return facts, fmt.Errorf("%sunknown flag bits %#x", pre, fl)
+		}
+		if nilOut {
+			continue
 		}
 		if m.Parameters == nil || string(*m.Parameters) == "null" {
 			if raw != nil && string(raw) != "null" {
